@@ -270,6 +270,40 @@ func Check(c *Case) (res kit.Result) {
 				return
 			}
 		}
+	case "poolAfterGrowth":
+		// A buffer obtained from a zero-capacity pool may legitimately be grown by
+		// appending a non-empty buffer to it (it then leaves the pool's capacity
+		// class and is dropped). Buffers obtained afterwards must still be inert.
+		if !c.inert() || c.C == 0 {
+			return kit.Result{}
+		}
+		pool := kit.NewAnyPool(c.T, c.alloc())
+		g := pool.Get()
+		if !sizesOK(&res, "pooled buffer", c, g, bits) {
+			return
+		}
+		src := kit.AnyRoot(c.T, c.C, 1+c.N%4)
+		if p, v := kit.Try(func() { g.Append(src) }); p {
+			res.Failf("Append of %d frames to a buffer from PoolAlloc(%+v) panicked: %v", 1+c.N%4, c.alloc(), v)
+			return
+		}
+		for i := 0; i < 3; i++ {
+			b := pool.Get()
+			if !sizesOK(&res, fmt.Sprintf("buffer #%d obtained after another buffer of the pool was grown", i), c, b, bits) {
+				return
+			}
+			b.AppendSample(kit.IV(5))
+			if !sizesOK(&res, "that buffer after AppendSample", c, b, bits) {
+				return
+			}
+			if out, n := b.ReadVals(3); n != 0 || out[0].String() != "0" {
+				res.Failf("Read on a buffer from PoolAlloc(%+v) after another one was grown returned %d", c.alloc(), n)
+				return
+			}
+			if c.K2 > 0 {
+				pool.Put(b)
+			}
+		}
 	case "write", "read", "writeStriped", "readStriped":
 		f, ok := rwTable[c.U+"/"+c.T]
 		if !ok {
@@ -459,7 +493,7 @@ func Shapes(maxC, maxK int) [][3]int {
 	return out
 }
 
-var entries = []string{"sizes", "appendSample", "appendEmpty", "slice00", "channel0", "pool", "write", "read", "writeStriped", "readStriped", "conv", "channelLength"}
+var entries = []string{"sizes", "appendSample", "appendEmpty", "slice00", "channel0", "pool", "poolAfterGrowth", "write", "read", "writeStriped", "readStriped", "conv", "channelLength"}
 
 func Gen(t *rapid.T) *Case {
 	c := &Case{Entry: rapid.SampledFrom(entries).Draw(t, "entry")}
